@@ -46,7 +46,7 @@ func init() {
 	register("C01", "", clean, rulePrepareResponse)
 	register("C17", "", clean, rulePrepareResponse)
 	scAll := scope{"module", []string{"pebbles.(*Gateway).Handler", "pebbles.NewGateway", "planner.(*CachedPlanner).Plan", "merger.(SanitizeNodeMergerFunc).Merge"}}
-	register("C13", "", ruleMapRanges(scAll, 40), ruleReducers, ruleSelects, ruleCallers(func(c string) bool { return c == "time.Now" }), ruleGoSites)
+	register("C13", "", ruleMapRanges(scAll, 30), ruleReducers, ruleSelects, ruleCallers(func(c string) bool { return c == "time.Now" }), ruleGoSites)
 	register("C14", "", rulePlanImmutable, ruleCacheKey, ruleLocks(plannerPkg+".CachedPlanner"))
 	register("C13", "", ruleLocks(plannerPkg+".CachedPlanner", modPath+"/executor.CachedPointDataExtractor"))
 	register("C18", "", ruleLocks(modPath+".subscriptionEntry"), ruleChannels, ruleConnWriters, ruleTeardown, ruleGoSites)
